@@ -117,9 +117,11 @@ func (w *World) DroppedLT(st ast.StmtNode) map[int]bool {
 		}
 	}
 	for _, p := range b.nb {
+		// the upper bound may lie outside the configured periods (calendar
+		// placement still yields its period number)
 		lo, ok1 := w.F.Place(goValueOf(p[0]))
-		hi, ok2 := w.F.Place(goValueOf(p[1]))
-		if ok1 && ok2 && lo <= hi {
+		hi, _ := w.F.Place(goValueOf(p[1]))
+		if ok1 && hi >= 0 && lo <= hi {
 			cand[lo] = true
 		}
 	}
@@ -145,7 +147,10 @@ func (w *World) DroppedNB(st ast.StmtNode) map[int]bool {
 	for _, p := range b.nb {
 		lo, ok1 := w.F.Place(goValueOf(p[0]))
 		hi, ok2 := w.F.Place(goValueOf(p[1]))
-		if !ok1 || !ok2 || lo <= hi {
+		if !l.IsDate() && (!ok1 || !ok2) {
+			continue // a range rule rejects bounds outside its ranges
+		}
+		if lo < 0 || hi < 0 || lo <= hi {
 			continue
 		}
 		for _, tl := range w.F.Tables {
